@@ -7,8 +7,10 @@ ops (one history = everything since the last `reset`), see go/cmd/c10/main.go:
   reset <attr> <old:0|1> <smart:0|1> <autofile:hex> <dir:hex>
   file <name:hex> <hex|absent>
   comment <ptt|bbs> <sysop|user> <userid:hex13> <reqname:hex28> <type:0..255> <text:hex> <ip:hex16> <mtime>
-  begin <id> <comment arguments>   phase A of a commenter that then waits on the article's lock ("started")
-  finish <id>                      its phase B, on whatever the index holds by now
+  begin <id> <inproc|foreign> <comment arguments>   phase A of a commenter that then waits on the article's lock ("started")
+  append <name:hex> <bytes:hex>    the lock holder (another process) appends to the article
+  finish <id>                      its phase B, on whatever the index and the article hold by now
+  expire <id>                      the lock is kept beyond its five attempts: the lock error, nothing changes
   mark <type>
   dump
 -/
@@ -108,6 +110,7 @@ def showRes : Res → String
   | .badName => "err:name"
   | .notFound => "err:notfound"
   | .noFile => "err:nofile"
+  | .lockErr => "err:lock"
   | .idxErr => "err:idx"
   | .osErr => "err:os"
 
@@ -170,8 +173,8 @@ def stepC10 (d : DSt) (ws : List String) : DSt × String :=
     | some q =>
       let (st, res) := recommend findLinear d.cfg d.st q
       ({ d with st }, showOutcome st res)
-  | ["begin", id, via, lvl, user, req, ct, text, ip, mt] =>
-    if !d.have_ then (d, "bad-op") else
+  | ["begin", id, holder, via, lvl, user, req, ct, text, ip, mt] =>
+    if !d.have_ || (holder ≠ "inproc" && holder ≠ "foreign") then (d, "bad-op") else
     match parseComment via lvl user req ct text ip mt with
     | none => (d, "bad-op")
     | some q =>
@@ -180,6 +183,26 @@ def stepC10 (d : DSt) (ws : List String) : DSt × String :=
       if via ≠ "ptt" || !ticketId id || d.tickets.any (fun e => e.1 == id) || d.tickets.length ≥ 8
           || (target.isSome && d.tickets.any (fun e => e.2.1 == target)) then (d, "bad-op")
       else ({ d with tickets := d.tickets ++ [(id, target, phaseA findLinear d.cfg d.st q)] }, "started")
+  | ["append", n, bs] =>
+    if !d.have_ then (d, "bad-op") else
+    match parseHexStrict n, parseHexStrict bs with
+    | some n, some bs =>
+      if !safeName n || bs.isEmpty || bs.length > 4096 || (fileGet d.st.files n).isNone then (d, "bad-op")
+      else
+        let st := extAppend d.st n bs
+        ({ d with st }, "ok " ++ stateStr st)
+    | _, _ => (d, "bad-op")
+  | ["expire", id] =>
+    if !d.have_ then (d, "bad-op") else
+    match d.tickets.find? (fun e => e.1 == id) with
+    | none => (d, "bad-op")
+    | some e =>
+      let tickets := d.tickets.filter (fun e => e.1 != id)
+      -- the lock is never obtained: every attempt of doAddRecommend fails, nothing is written
+      let r : Res := match e.2.2 with
+        | .error r => r
+        | .ok t => if (fileGet d.st.files (cstr (field t.copy Gen.RecFile.offFilename Gen.RecFile.lenFilename))).isNone then .noFile else .lockErr
+      ({ d with tickets }, showOutcome d.st r)
   | ["finish", id] =>
     if !d.have_ then (d, "bad-op") else
     match d.tickets.find? (fun e => e.1 == id) with
